@@ -293,6 +293,8 @@ def run(tier):
                     opts.append(("blksize", b))
                 if w:
                     opts.append(("windowsize", w))
+                if (fl + (b or 0) + (w or 0)) % 2 == 0:
+                    opts.insert(len(opts) // 2, ("tsize", 0))   # half of the measured transfers also negotiate tsize
                 oack, bursts, data, completed, note = measured_download(srv.addr, fname, opts)
                 return c, opts, oack, bursts, data, completed, note
 
@@ -303,6 +305,8 @@ def run(tier):
                     replay = {"engine": "net", "config": cfg, "transfer": {"blksize": b, "windowsize": w, "file_len": fl}, "oack": oack, "bursts": bursts[:6], "note": note}
                     eb = int(oack["blksize"]) if oack and "blksize" in oack else 512
                     ew = int(oack["windowsize"]) if oack and "windowsize" in oack else 1
+                    if oack is not None and "tsize" in dict(opts) and oack.get("tsize") != str(fl):
+                        v.violation("C09/transfer/tsize", f"{cfg}: OACK tsize {oack.get('tsize')} for a {fl}-byte file", replay)
                     if (b or w) and oack is None:
                         v.violation("C09/transfer/no-oack", f"{cfg}: download with {opts} got no OACK ({note})", replay)
                         continue
